@@ -37,6 +37,8 @@ REDUCED = [
     ["o P2 240106 240105#Z6 stamped has zid"],
     ["-  two spaces"],
     ["o P3  2024-02-05 two spaces dated"],
+    ["- 240229#Z7 zid of a leap day"],
+    ["x 2024-02-29 done on a leap day"],
 ]
 LAYOUTS = ["same_block", "two_blocks", "dated_h2", "subdir", "two_pages", "same_name_pages", "deep_sections", "h2_first"]
 
@@ -86,7 +88,7 @@ def build_files(case) -> dict[str, str]:
     if layout == "two_blocks":
         return {"a.zo": "# t\n\n" + A + "\n" + B}
     if layout == "dated_h2":
-        return {"a.zo": "# t\n\n" + A + "\n" + f"{H2R} Sec 2024-03-03 #st\n\n" + B}
+        return {"a.zo": "# t\n\n" + A + "\n" + f"{H2R} Sec 2024-02-29 #st\n\n" + B}
     if layout == "subdir":
         return {"sub/dir/a.zo": "# t\n\n" + A + B, "top.zo": "# top\n\n- 240103#Z3 top note\n"}
     if layout == "deep_sections":
